@@ -73,7 +73,7 @@ struct PpsGridChain {
     return MZ.size() < MY.size() ? 1 : -1;
   }
   PS twin(const PS& p, bool permute, std::string& desc) {
-    std::vector<Grid> v; for (PS::const_iterator i = p.begin(); i != p.end(); ++i) { std::string d; v.push_back(grid_twin(i->pointset(), rnd(0, 7), d)); desc += (desc.empty() ? "" : ",") + d; }
+    std::vector<Grid> v; for (PS::const_iterator i = p.begin(); i != p.end(); ++i) { std::string d; v.push_back(grid_twin(i->pointset(), rnd(0, 9), d)); desc += (desc.empty() ? "" : ",") + d; }
     if (permute) { std::shuffle(v.begin(), v.end(), hx::rng()); desc += ",permuted"; }
     PS q(n, EMPTY); for (size_t i = 0; i < v.size(); ++i) q.add_disjunct(v[i]); q.omega_reduce(); return q;
   }
